@@ -247,6 +247,8 @@ func parseLine(line string, cursor fs.LineReader) (bool, lineInfo, bool) {
 		err = fmt.Errorf("no file name")
 	} else if name[0] != '/' {
 		err = fmt.Errorf("name '%s' is not absolute", name)
+	} else if name = path.Clean(name); len(name) < 2 {
+		err = fmt.Errorf("no file name")
 	} else {
 		entry.name, entry.hasWildcard, err = parseSource(name)
 	}
